@@ -537,22 +537,23 @@ let c18_line line =
   | _ -> ()
 
 (* ---------------- one-way sync runs (C04 C14 C15) ---------------- *)
+(* paths and patterns are sequences of Unicode scalar values (Rust str / chars()), contents are bytes *)
 let coneway_line line =
   match split_ws line with
   | id :: fields ->
     let src = ref [] and dst = ref [] and ex = ref [] and del = ref false and dry = ref false and order = ref [] and fail = ref [] in
     let tree v = if v = "-" then [] else List.map (fun e -> match String.split_on_char ':' e with
-        | [p; c; m] -> (zl_of_hex p, (zl_of_hex c, z_of_dec m)) | _ -> failwith "bad tree") (split_on ';' v) in
-    let plist v = if v = "-" then [] else List.map zl_of_hex (split_on ',' v) in
+        | [p; c; m] -> (chars_of_hex p, (zl_of_hex c, z_of_dec m)) | _ -> failwith "bad tree") (split_on ';' v) in
+    let plist v = if v = "-" then [] else List.map chars_of_hex (split_on ',' v) in
     List.iter (fun f ->
       let (k, v) = kv_of f in
       if k = "SRC" then src := tree v else if k = "DST" then dst := tree v
       else if k = "EX" then ex := plist v else if k = "DEL" then del := (v = "1") else if k = "DRY" then dry := (v = "1")
       else if k = "ORDER" then order := plist v else if k = "FAIL" then fail := plist v) fields;
     let r = ow_exec !src !dst !ex !del !dry !order !fail in
-    let hl l = if l = [] then "-" else String.concat "," (List.map hex_of_zl l) in
+    let hl l = if l = [] then "-" else String.concat "," (List.map hex_of_chars l) in
     let t = ow_tree_list r.r_dst in
-    let ts = if t = [] then "-" else String.concat "," (List.map (fun (p, (c, m)) -> Printf.sprintf "%s=%s@%s" (hex_of_zl p) (hex_of_zl c) (dec_of_z m)) t) in
+    let ts = if t = [] then "-" else String.concat "," (List.map (fun (p, (c, m)) -> Printf.sprintf "%s=%s@%s" (hex_of_chars p) (hex_of_zl c) (dec_of_z m)) t) in
     Printf.printf "%s KIND=%s EXIT=%s T=%s S=%s D=%s SENT=%s FAILED=%s DST=%s\n" id
       (match r.r_kind with NoFiles -> "NOFILES" | DryRun -> "DRYRUN" | UpToDate -> "UPTODATE" | Ran -> "RAN")
       (if r.r_exit_ok then "0" else "1") (hl r.r_plan.transfer) (dec_of_z r.r_plan.skipped) (hl r.r_plan.sp_delete)
